@@ -123,3 +123,11 @@ package ch
 //@   ensures err == nil ==> c != nil {client-on-success}
 //@   ensures err != nil ==> c == nil {no-client-on-failure}
 //@   ensures err != nil ==> allfresh(net.Conn, closed) {dialed-conn-closed-on-failure}
+
+//@ -- guards of Do: a closed client rejects the call without touching the connection (C04);
+//@ -- query parameters on a revision without them are refused before anything is written (C13)
+//@ contract (c *Client) Do(ctx, q) (err) props(C04,C13)
+//@   requires c != nil && ctx != nil
+//@   modifies all(c), all(ctx), all(q.Result), all(q.Logger)
+//@   ensures old(c.closed) ==> err != nil && c.conn.olen == old(c.conn.olen) && c.conn.closes == old(c.conn.closes) {closed-client-rejects-without-touching-conn}
+//@   ensures !old(c.closed) && len(q.Parameters) > 0 && old(c.protocolVersion) < 54459 ==> err != nil && c.conn.olen == old(c.conn.olen) {parameters-need-revision-54459}
